@@ -52,7 +52,7 @@ Vals(n) == Nat0((IF Rich THEN {0, 1, n - 1, n, n + 2} ELSE {0, n, n + 2}) \cup (
 PassedVals(n) == Nat0(IF Rich THEN {0, 1, n - 1, n, n + 3} ELSE {n - 1, n + 3})
 MaxComboOf(m, sh) == CASE m = "osu" -> sh.d [] m = "taiko" -> sh.a [] m = "catch" -> sh.a + sh.b [] OTHER -> 0
 ComboVals(m, sh) == Nat0({0, MaxComboOf(m, sh) - 1, MaxComboOf(m, sh) + 2})
-Origins(m) == CASE m = "osu" -> {"S", "L", "C"} [] m = "mania" -> {"S", "L"} [] OTHER -> {"S"}
+Origins(m) == CASE m = "osu" -> {"S", "L", "C"} [] m = "mania" -> {"S", "L", "C"} [] OTHER -> {"S"}
 
 (* provided fields.  The space is the union of three aspects instead of one cross product:     *)
 (*   core    main hit results x misses                 (combo and the extras not provided)      *)
